@@ -319,11 +319,15 @@ ASSUME = ['descriptors stay inside the supported domain of the property quantifi
           'the CAT_VERIF hook only reports phase/dequeue/finish and does not change behaviour',
           'gcc -O1 build of cat.c behaves like the shipped build for defined behaviour']
 
+# a second build configuration of the library for every behavioural check: what a release build for a typical target of this library looks like
+# (assert() compiled out, optimiser on, plain char unsigned as on ARM / PowerPC).  It runs the whole sweep and a quarter of the random budget.
+RELEASE_FLAGS = [f for f in BASE_FLAGS if f != '-O1'] + ['-O2', '-DNDEBUG', '-funsigned-char', '-DVERIF_BUILD_TAG="release"']
 def plain_variants(cfg):
     out = []
     for prog, caps in cfg['progs']:
         for q in caps:
             out.append({'prog': prog, 'qcap': q, 'cc': 'gcc', 'flags': BASE_FLAGS, 'tag': 'plain', 'extra': cfg.get('extra', [])})
+        out.append({'prog': prog, 'qcap': caps[-1], 'cc': 'gcc', 'flags': RELEASE_FLAGS, 'tag': 'release', 'extra': cfg.get('extra', []), 'div': 4})
     return out
 
 def do_check(pid, tier):
@@ -459,7 +463,9 @@ def c03_custom(pid, tier, seed, t0):
     thorough = tier == 'thorough'
     def mk(cc, flags, tag, only=None):
         return [{'prog': p, 'qcap': q, 'cc': cc, 'flags': BASE_FLAGS + flags, 'tag': tag, 'extra': ex, 'div': d} for p, caps, ex, d in C03_REPLAY for q in caps if only is None or p in only]
-    sets = [('gcc-asan-ubsan', mk('gcc', SAN_FLAGS, 'gccasan'))]
+    sets = [('gcc-asan-ubsan', mk('gcc', SAN_FLAGS, 'gccasan')),
+            # the release configuration of the library (asserts compiled out, plain char unsigned) under the same sanitizers, for the boundary workload and the argument decoders
+            ('gcc-asan-ubsan-release-config', mk('gcc', SAN_FLAGS + ['-DNDEBUG', '-funsigned-char', '-DVERIF_BUILD_TAG="release"'], 'gccasanrel', only=['chk_C03', 'chk_C04', 'chk_C05', 'chk_C06', 'chk_C19']))]
     if thorough:
         sets.append(('clang-asan-ubsan', mk('clang', SAN_FLAGS + ['-fno-sanitize=object-size'], 'clangasan')))
         sets.append(('clang-msan', mk('clang', ['-fsanitize=memory', '-fsanitize-memory-track-origins', '-fno-omit-frame-pointer', '-DVERIF_MSAN=1'], 'msan', only=['chk_C03', 'chk_C01', 'chk_C06', 'chk_C10', 'chk_C13', 'chk_C19'])))
@@ -566,7 +572,7 @@ def do_replay(path):
     extras = {p: ex for p, _, ex, _ in C03_REPLAY}.get(hdr['prog'], [])
     bdir = os.path.join(ROOT, 'build', 'replay')
     shutil.rmtree(bdir, ignore_errors=True)
-    flags = BASE_FLAGS + (SAN_FLAGS if hdr.get('san') else [])
+    flags = (RELEASE_FLAGS if hdr.get('build') == 'release' else BASE_FLAGS) + (SAN_FLAGS if hdr.get('san') else [])
     v = build_variants(bdir, [{'prog': hdr['prog'], 'qcap': hdr['qcap'], 'cc': 'gcc', 'flags': flags, 'tag': 'replay', 'extra': extras}])[0]
     cmd = [v['bin'], '--seed', str(hdr['seed']), '--tier', hdr['tier'], '--case', str(hdr['case'])] + (['--san'] if hdr.get('san') else [])
     log('replaying:', ' '.join(cmd))
